@@ -11,6 +11,7 @@ CONSTANTS
  MaxOps = 3
  Staged = FALSE
  InitAll = {}
+ SnapModes = {"keep", "copy"}
  DelUnderShadow = TRUE
 VIEW View
 INVARIANT TypeOK
@@ -26,4 +27,6 @@ PROPERTY OmittedValueKept
 PROPERTY DeleteRemoves
 PROPERTY ExistNamesGetattrAgreeWithHA
 PROPERTY Priority
+PROPERTY SnapshotAsValue
+PROPERTY TouchOnlyReports
 CHECK_DEADLOCK FALSE
